@@ -64,6 +64,14 @@ fn main() {
         }
         return;
     }
+    if id == "list" {
+        // verif list : property -> sub-checks, as registered
+        for p in props::registry() {
+            let names: Vec<&str> = (p.subs)().iter().map(|s| s.name()).collect();
+            println!("{}: {}{}", p.id, names.join(", "), if p.extra.is_some() { ", + process/thread stage" } else { "" });
+        }
+        return;
+    }
     if id == "selftest" {
         match selftest() {
             Ok(n) => {
